@@ -43,6 +43,16 @@ Conventions (all value-preserving in exact arithmetic; they are the translator's
   * `sorted((a, b))` -> `if b < a then (b, a) else (a, b)` (Python's sort is stable).
 
 The output is deterministic: on an unchanged source tree the files are rewritten byte-identically (and not touched).
+
+STATEMENT-LEVEL ENGINE (py2lean_stmt.py; keys imager, landscaper, plarith, graph, approx, bottleneck, wasserstein of FILES;
+`pre_build` of C12, C18, C09, C17, C08, C01, C02).  The same  generate(repo_root, out_dir, only=[...])  also renders the files
+of the second engine, which translates small statement-level Python -- methods reading and writing attributes of `self`
+(fields of the model's state record), raising calls (`Except`), `if/elif/else` that re-assign several names, `for` loops
+(structural recursions carrying the re-assigned names), a `while` loop with a decreasing measure (well-founded recursion split
+on the shapes of the consumed lists) and NumPy block assignments read entry-wise -- and emits obligations proved by `rfl`, by
+case analysis, or by an induction that relates the generated loop to the model's recursion (proof scripts fixed in its
+TARGETS table; model-only helper lemmas in lean/PersimVerif/Lemmas/SrcBridge*.lean, the Python builtins it uses in
+lean/PersimVerif/Lemmas/SrcLib.lean).  Its conventions are stated in its module docstring and in every generated header.
 """
 import ast, os, re
 from fractions import Fraction
@@ -982,6 +992,12 @@ FILES = {
 
 def trusted_note(key):
     """the entry a harness module adds to its TRUSTED list"""
+    if key in STMT_KEYS:
+        return ("harness/translator/py2lean.py + py2lean_stmt.py (statement-level ast translation of the anchored code of %s into "
+                "Generated/%s, proved equal to the hand-written model on every run; its TARGETS table -- binders, the attribute -> "
+                "field map, which callee is which definition / model helper, the obligation statements and proof scripts -- and its "
+                "stated conventions -- SSA, `self` as a state record, raising builtins as guards, loops as recursions -- and "
+                "Lemmas/SrcLib.lean are trusted)" % (FILES[key][0], FILES[key][1]))
     return ("harness/translator/py2lean.py (ast translation of the anchored arithmetic of %s into Generated/%s, proved equal to "
             "the hand-written model by rfl on every run; its TARGETS table -- binders, which callee is which parameter, the obligation "
             "statements -- and its stated conventions -- elementwise broadcasting, sqrt/exp/log/pow as named parameters -- are trusted)"
@@ -991,6 +1007,20 @@ def trusted_note(key):
 def manifest_note(key):
     """sentence appended to MANIFEST['note'] of the property that owns `key`"""
     fs = []
+    if key in STMT_KEYS:
+        for cfg in py2lean_stmt.TARGETS:
+            if cfg["file"] == key:
+                f = cfg["func"] + (" of %s" % cfg["pyfile"] if cfg.get("pyfile") else "")
+                if cfg.get("region", "function") != "function":
+                    f += " (region `%s`)" % cfg["lean"]
+                if f not in fs:
+                    fs.append(f)
+        return ("Source translator (statement level): these parts of %s are re-translated from the source text into Lean on every "
+                "run (Generated/%s), statement by statement (attribute reads/writes of `self` as fields of the model's state record, "
+                "raising calls as `Except`, loops as recursions), and proved EQUAL to the hand-written model definitions (rfl, case "
+                "analysis, or an induction relating the generated loop to the model's recursion): %s; an edit of those lines "
+                "breaks a generated obligation and triggers the failing-input search (trusted: the translator's stated conventions, "
+                "its TARGETS table and Lemmas/SrcLib.lean)." % (FILES[key][0], FILES[key][1], ", ".join(fs)))
     for cfg in TARGETS:
         if cfg["file"] == key:
             f = cfg["func"] if cfg["region"] == "function" else "%s (%s)" % (cfg["func"], cfg["lean"])
@@ -1005,6 +1035,11 @@ def manifest_note(key):
 def prop_file(key):
     """path of the generated file of `key`, relative to the lean project (for PROP_FILES)"""
     return "/".join(["PersimVerif", "Generated", FILES[key][1]])
+
+
+def prop_files(key):
+    """the generated file of `key` preceded by the hand-written library / bridging lemma files it imports (for PROP_FILES)"""
+    return list(py2lean_stmt.BRIDGES.get(key, [])) + [prop_file(key)]
 
 
 # ----------------------------------------------------------------------------- regions
@@ -1259,6 +1294,8 @@ def header(key):
 
 
 def render_file(key, root):
+    if key in STMT_KEYS:
+        return py2lean_stmt.render_file(key, root)
     py, out, ns, model, prop = FILES[key]
     o, info = [header(key)], {"source": py, "output": "/".join([GEN.replace(os.sep, "/"), out]), "functions": {}}
     src, fns, file_err = "", {}, None
@@ -1398,6 +1435,20 @@ def report_broken(ctx, prop_files):
         print("generated/proved obligations that no longer check: %s" % ", ".join(bt), flush=True)
     ctx.extra["broken_obligations"] = bt
     return bt
+
+
+# the statement-level engine registers its files here (keys of STMT_KEYS are rendered by py2lean_stmt.render_file)
+STMT_KEYS = set()
+from . import py2lean_stmt  # noqa: E402
+
+
+def _register():
+    for k, v in getattr(py2lean_stmt, "FILES", {}).items():
+        FILES[k] = v[:5]
+        STMT_KEYS.add(k)
+
+
+_register()
 
 
 if __name__ == "__main__":
